@@ -18,6 +18,12 @@ if st:
     print("refusing: /repo has uncommitted changes:\n" + st)
     sys.exit(2)
 out = {"seed": sid, "property": meta["property"], "results": {}}
+import shutil
+saved = {}
+for c in checks:   # evidence files must keep describing the UNCHANGED tree: save and restore them around the mutated run
+    ev = os.path.join(VERIF, "evidence", f"{c}.json")
+    if os.path.exists(ev):
+        saved[ev] = open(ev, "rb").read()
 try:
     subprocess.run(["git", "-C", "/repo", "apply", os.path.join(d, "patch.diff")], check=True)
     for c in checks:
@@ -39,4 +45,6 @@ finally:
     subprocess.run(["git", "-C", "/repo", "checkout", "--", "."], check=True)
     # restore generated files / evidence to the clean-tree state
     subprocess.run(["/venv/bin/python", os.path.join(VERIF, "vlib", "py2lean.py")], capture_output=True)
+    for ev, data in saved.items():
+        open(ev, "wb").write(data)
 json.dump(out, open(os.path.join(d, "detection.json"), "w"), indent=1)
